@@ -25,6 +25,7 @@ type Case struct {
 	Edits   []EditRef  `json:"edits"`
 	Perm    int64      `json:"perm"`  // != 0: permute declaration order of the second graph (seed)
 	Level   string     `json:"level"` // schema | realm | table
+	Twins   []Twin     `json:"twins,omitempty"`
 }
 
 // Describe flattens a change list into descriptors.
@@ -238,6 +239,9 @@ func Apply(dialect string, m *gm.Schema, e EditRef) ([]string, error) {
 	case "add-index":
 		t.Indexes = append(t.Indexes, gm.Index{Name: e.Obj, Parts: []gm.Part{{Col: e.Arg}}})
 		return []string{p + "AddIndex(" + e.Obj + ")"}, nil
+	case "add-unnamed-index":
+		t.Indexes = append(t.Indexes, gm.Index{Parts: []gm.Part{{Col: e.Arg}}})
+		return []string{p + "AddIndex()"}, nil
 	case "drop-index":
 		for i := range t.Indexes {
 			if t.Indexes[i].Name == e.Obj {
@@ -448,7 +452,41 @@ func checkCase(c Case) (Outcome, error) {
 		out.Expected = append(out.Expected, d...)
 	}
 	out.Expected = MergeModify(out.Expected)
-	from, err := gm.Build(c.Dialect, c.Base)
+	base := c.Base
+	if len(c.Twins) > 0 {
+		base = c.Base.Clone()
+		for _, tw := range c.Twins {
+			ft, tt := base.Table(tw.Table), edited.Table(tw.Table)
+			if ft == nil || tt == nil {
+				return out, fmt.Errorf("harness: twin %+v: table missing", tw)
+			}
+			fi, ti := -1, -1
+			for i := range ft.Indexes {
+				if ft.Indexes[i].Name == tw.Index {
+					fi = i
+				}
+			}
+			for i := range tt.Indexes {
+				if tt.Indexes[i].Name == tw.Index {
+					ti = i
+				}
+			}
+			if fi < 0 || ti < 0 {
+				return out, fmt.Errorf("harness: twin %+v: index missing", tw)
+			}
+			ft.Indexes[fi].Name = tw.Gen
+			tt.Indexes[ti].Name = ""
+			switch tw.Op {
+			case "drop":
+				tt.Indexes = append(tt.Indexes[:ti], tt.Indexes[ti+1:]...)
+				out.Expected = append(out.Expected, tw.Table+":DropIndex("+tw.Gen+")")
+			case "flip-unique":
+				tt.Indexes[ti].Unique = !tt.Indexes[ti].Unique
+				out.Expected = append(out.Expected, tw.Table+":DropIndex("+tw.Gen+")", tw.Table+":AddIndex()")
+			}
+		}
+	}
+	from, err := gm.Build(c.Dialect, base)
 	if err != nil {
 		return out, fmt.Errorf("harness: build base: %v", err)
 	}
